@@ -699,8 +699,32 @@ def eval_datapipes(case):
         elif not d <= TOL_DP:
             res.fail(f"datapipes:{block}:{name}", f"DataPipe {block} key '{name}' differs from the function by {d:.3e}")
 
+    # For half of the cases the judged example is the SECOND of the stream, behind a leading example whose images
+    # have another size (one pass over a mixed-resolution stream): per-pass state must not leak between examples.
+    lead_on = case["seed"] % 2 == 1
+    if lead_on:
+        res.cls("datapipes:behind-differently-sized-example")
+
+    def stream(ex):
+        if not lead_on:
+            return [ex]
+        lead = dict(ex)
+        for key in ("image", "instance_image", "original_image"):
+            if key in lead and isinstance(lead[key], torch.Tensor) and lead[key].dim() >= 3:
+                t = lead[key]
+                lead[key] = torch.zeros(tuple(t.shape[:-2]) + (max(8, t.shape[-2] // 2), max(8, t.shape[-1] - 4)), dtype=t.dtype)
+        for key, v in list(lead.items()):
+            if isinstance(v, torch.Tensor) and key not in ("image", "instance_image", "original_image"):
+                lead[key] = v.clone()
+        return [lead, ex]
+
     def run(dp):
         out = runner.guarded(res, f"datapipes:{block}", lambda: list(dp))
+        if out is not runner.FAILED and lead_on:
+            if len(out) != 2:
+                res.fail(f"datapipes:{block}:stream-length", f"{len(out)} examples for a 2-element stream")
+                return runner.FAILED
+            out = out[1:]
         return out
 
     base = {"video_idx": torch.tensor(0, dtype=torch.int32), "frame_idx": torch.tensor(3, dtype=torch.int32), "num_instances": n_inst,
@@ -708,7 +732,7 @@ def eval_datapipes(case):
 
     if block == "normalizer":
         src = img_u8 if case["uint8"] else img
-        out = run(Normalizer([dict(base, image=src.clone(), instances=instances.clone())], is_rgb=case["is_rgb"]))
+        out = run(Normalizer(stream(dict(base, image=src.clone(), instances=instances.clone())), is_rgb=case["is_rgb"]))
         if out is not runner.FAILED:
             exp = apply_normalization(src.clone())
             exp = convert_to_rgb(exp) if case["is_rgb"] else convert_to_grayscale(exp)
@@ -721,7 +745,7 @@ def eval_datapipes(case):
         ex = dict(base, **{ik: img.clone(), kk: kp.clone()})
         if case["keep_original"]:
             ex["image"] = img.clone()
-        out = run(Resizer([ex], scale=case["scale"], keep_original=case["keep_original"], image_key=ik, instances_key=kk))
+        out = run(Resizer(stream(ex), scale=case["scale"], keep_original=case["keep_original"], image_key=ik, instances_key=kk))
         if out is not runner.FAILED:
             e_img, e_kp = apply_resizer(img.clone(), kp.clone(), scale=case["scale"])
             same(ik, out[0][ik], e_img)
@@ -732,14 +756,14 @@ def eval_datapipes(case):
         res.cls(f"resizer:scale={case['scale']}")
     elif block in ("pad_to_stride", "pad_to_stride_instance"):
         ik = "image" if block == "pad_to_stride" else "instance_image"
-        out = run(PadToStride([dict(base, **{ik: img.clone()})], max_stride=case["max_stride"], image_key=ik))
+        out = run(PadToStride(stream(dict(base, **{ik: img.clone()})), max_stride=case["max_stride"], image_key=ik))
         if out is not runner.FAILED:
             same(ik, out[0][ik], apply_pad_to_stride(img.clone(), max_stride=case["max_stride"]))
         res.nontrivial = case["max_stride"] > 1 and (h % case["max_stride"] != 0 or w % case["max_stride"] != 0)
         res.cls(f"pad:max_stride={case['max_stride']}")
     elif block == "size_matcher":
         mh, mw = case["max_hw"]
-        out = run(SizeMatcher([dict(base, image=img.clone(), instances=instances.clone())], max_height=mh, max_width=mw))
+        out = run(SizeMatcher(stream(dict(base, image=img.clone(), instances=instances.clone())), max_height=mh, max_width=mw))
         if out is not runner.FAILED:
             e_img, eff = apply_sizematcher(img.clone(), mh, mw)
             if eff != 1.0:
@@ -749,7 +773,7 @@ def eval_datapipes(case):
         res.nontrivial = (mh is not None and mh != h) or (mw is not None and mw != w)
         res.cls(f"size_matcher:{'pad' if res.nontrivial else 'idle'}")
     elif block == "centroid_finder":
-        out = run(InstanceCentroidFinder([dict(base, image=img.clone(), instances=instances.clone())], anchor_ind=case["anchor"]))
+        out = run(InstanceCentroidFinder(stream(dict(base, image=img.clone(), instances=instances.clone())), anchor_ind=case["anchor"]))
         if out is not runner.FAILED:
             same("centroids", out[0]["centroids"], generate_centroids(instances.clone(), anchor_ind=case["anchor"]))
             same("instances", out[0]["instances"], instances)
@@ -778,14 +802,14 @@ def eval_datapipes(case):
     elif block in ("confmaps", "confmaps_instance"):
         kk = "instances" if block == "confmaps" else "instance"
         kp = instances[:, :1] if block == "confmaps" else instances[:, 0]  # single-instance pipelines carry one instance
-        out = run(ConfidenceMapGenerator([dict(base, image=img.clone(), **{kk: kp.clone()})], sigma=case["sigma"], output_stride=case["stride"],
+        out = run(ConfidenceMapGenerator(stream(dict(base, image=img.clone(), **{kk: kp.clone()})), sigma=case["sigma"], output_stride=case["stride"],
                                          image_key="image", instance_key=kk))
         if out is not runner.FAILED:
             same("confidence_maps", out[0]["confidence_maps"], generate_confmaps(kp.clone(), img_hw=(h, w), sigma=case["sigma"], output_stride=case["stride"]))
         res.nontrivial = True
         res.cls(f"confmaps:stride={case['stride']}")
     elif block == "multi_confmaps":
-        out = run(MultiConfidenceMapGenerator([dict(base, image=img.clone(), instances=instances.clone())], sigma=case["sigma"], output_stride=case["stride"],
+        out = run(MultiConfidenceMapGenerator(stream(dict(base, image=img.clone(), instances=instances.clone())), sigma=case["sigma"], output_stride=case["stride"],
                                               centroids=False))
         if out is not runner.FAILED:
             same("confidence_maps", out[0]["confidence_maps"],
@@ -794,7 +818,7 @@ def eval_datapipes(case):
         res.cls(f"multi_confmaps:stride={case['stride']}|n_inst={n_inst}")
     elif block == "multi_confmaps_centroids":
         cents = _np_centroids(case)
-        out = run(MultiConfidenceMapGenerator([dict(base, image=img.clone(), instances=instances.clone(), centroids=cents.clone())], sigma=case["sigma"],
+        out = run(MultiConfidenceMapGenerator(stream(dict(base, image=img.clone(), instances=instances.clone(), centroids=cents.clone())), sigma=case["sigma"],
                                               output_stride=case["stride"], centroids=True))
         if out is not runner.FAILED:
             same("centroids_confidence_maps", out[0]["centroids_confidence_maps"],
@@ -803,7 +827,7 @@ def eval_datapipes(case):
         res.cls(f"multi_confmaps_centroids:stride={case['stride']}|n_inst={n_inst}")
     elif block == "pafs":
         edges = torch.Tensor(case["edges"])
-        out = run(PartAffinityFieldsGenerator([dict(base, image=img.clone(), instances=instances.clone())], sigma=case["paf_sigma"], output_stride=case["stride"],
+        out = run(PartAffinityFieldsGenerator(stream(dict(base, image=img.clone(), instances=instances.clone())), sigma=case["paf_sigma"], output_stride=case["stride"],
                                               edge_inds=edges, flatten_channels=case["flatten"]))
         if out is not runner.FAILED:
             same("part_affinity_fields", out[0]["part_affinity_fields"],
